@@ -367,6 +367,7 @@ func init() {
 		s := NewStream(dir, "genesis")
 		defer s.Close(dir, "genesis")
 		monUTF8(s)
+		monC08ExportAtSequenceEnd(s)
 		monAolGenesisConsistency(s, "c01")
 		monAolGenesisConsistency(s, "c13")
 		seen, sigs := map[string]bool{}, map[string]bool{}
